@@ -41,6 +41,7 @@ struct SeekRun {
   int seeks_ok = 0, reads_after_seek = 0, calls = 0; bool last_was_seek = false; bool any_nontrivial = false;
   std::vector<double> tstart;  // time at start of each link (as the library sums it)
   int hs = 0;                  // model of the half-rate flag (mode 20)
+  bool refuses = false;        // mode 20: some link has 64-sample short blocks, so half rate must be refused
   bool relaxed = false;        // mode 20: an interior link has odd length -> positions may be off by one after crossing it (DESIGN 3.21)
   int toggles = 0, toggles_after_read = 0; bool did_read = false; bool toggle_seek_read = false; int stage = 0;
   SeekRun(Tape &t_, Report &r_, int m) : t(t_), r(r_), mode(m) {}
@@ -97,7 +98,7 @@ struct SeekRun {
     if (n > req) return r.fail("ov_read_float returned %ld > requested %d [%s]", n, req, desc.c_str());
     std::string why; vorbis_info *vi = ov_info(&vf, -1);
     // after reading through an odd-length interior link at half rate the running position is one ahead of the next link's first sample
-    if (hs && relaxed) { int l0 = g.link_of(pos); if (l0 >= 0 && ((pos - g.start[l0]) & 1)) pos -= 1; }
+    if (hs && relaxed) { int l0 = g.link_of(pos); if (l0 < 0 || ((pos - g.start[l0]) & 1)) { int l1 = g.link_of(pos - 1); if (l1 >= 0 && !((pos - 1 - g.start[l1]) & 1)) pos -= 1; } }
     if (!gt_compare(g, pos, pcm, n, bs, vi ? vi->channels : -1, why, hs)) return r.fail("%s [hist %s] [%s]", why.c_str(), hist.c_str(), desc.c_str());
     pos += n << hs; did_read = true;
     if (stage == 2) { toggle_seek_read = true; }
@@ -130,9 +131,22 @@ struct SeekRun {
   }
 
   // expected landing for page-granularity seek to global p: [b, p], b = largest page-end position strictly below p within the link, else link start
-  void page_bounds(int64_t p, int64_t &lo, int64_t &hi) const {
+  void page_bounds(int64_t p, int64_t &lo, int64_t &hi) {
     int l = link_for_seek(p); lo = g.start[l]; hi = p;
     for (int64_t gp : st.page_gp[l]) if (gp < p && gp > lo) lo = gp;
+    // Known finding D20 (open): when the page that ends at that boundary only completes a packet begun on an earlier page,
+    // ov_pcm_seek_page falls back to a raw seek one page earlier and lands up to one more page boundary early.
+    // While D20 is open the trigger region is excluded by construction: the lower bound moves two boundaries back (counted).
+    if (kf_open("D20")) {
+      const PageInfo *best = nullptr;
+      for (auto &pg : c.pages) if (pg.link == l && pg.last_completed_pkt >= 3 && pg.granulepos >= 0 && g.start[l] + std::min<int64_t>(pg.granulepos, g.len[l]) < p) best = &pg;
+      if (best && (best->flags & 1) && best->last_completed_pkt == best->first_pkt) {
+        int64_t b1 = g.start[l], b2 = g.start[l];   // b1: largest boundary < lo, b2: largest boundary < b1
+        for (int64_t gp : st.page_gp[l]) if (gp < lo && gp > b1) b1 = gp;
+        for (int64_t gp : st.page_gp[l]) if (gp < b1 && gp > b2) b2 = gp;
+        lo = b2; r.exclude("D20");
+      }
+    }
   }
 
   // half rate: largest position <= p on the sample grid of the link that a seek to p selects
@@ -140,6 +154,13 @@ struct SeekRun {
   bool do_toggle(int flag) {
     hist += sfmt("halfrate(%d)", flag); ms.mark();
     int ret = ov_halfrate(&vf, flag);
+    if (refuses && flag) {   // a link has 64-sample short blocks: refused, full-rate decoding intact at the same position
+      hist += sfmt("=%d ", ret); r.label("op halfrate refused (64-sample blocks)");
+      if (ret != OV_EINVAL) return r.fail("ov_halfrate(1) returned %d on a file with a 64-sample-block link (expected OV_EINVAL) [hist %s] [%s]", ret, hist.c_str(), desc.c_str());
+      if (ov_halfrate_p(&vf) != 0) return r.fail("ov_halfrate_p=%d after a refused ov_halfrate(1) [hist %s] [%s]", ov_halfrate_p(&vf), hist.c_str(), desc.c_str());
+      if (ov_pcm_tell(&vf) != pos) return r.fail("a refused ov_halfrate(1) moved the position from %lld to %lld [hist %s] [%s]", (long long)pos, (long long)ov_pcm_tell(&vf), hist.c_str(), desc.c_str());
+      last_was_seek = true; return true;   // the next read must be the full-rate audio at pos
+    }
     if (ret != 0) return r.fail("ov_halfrate(%d) returned %d on a file without 64-sample blocks [hist %s] [%s]", flag, ret, hist.c_str(), desc.c_str());
     if (ov_halfrate_p(&vf) != (flag ? 1 : 0)) return r.fail("ov_halfrate_p=%d after ov_halfrate(%d) [hist %s] [%s]", ov_halfrate_p(&vf), flag, hist.c_str(), desc.c_str());
     int64_t T = ov_pcm_tell(&vf); hist += sfmt("->%lld ", (long long)T);
@@ -182,8 +203,8 @@ struct SeekRun {
   }
 
   bool run() {
-    ChainOpts o; o.maxlinks = 4; o.maxN = 40000; o.comments = false;
-    if (mode == 20) { o.half = true; o.even_interior = !t.chance(1, 6); o.maxlinks = 3; o.maxN = 30000; }
+    ChainOpts o; o.maxlinks = 4; o.maxN = 40000; o.comments = false; o.vgen_pct = 35;
+    if (mode == 20) { o.half = true; o.even_interior = !t.chance(1, 6); o.maxlinks = 3; o.maxN = 30000; o.vgen_64_pct = 10; o.vgen_min_bslog = 7; }
     if (!gen_chain(t, r, o, c, g, meta, desc)) return false;
     make_targets(c, g, st);
     tstart.clear(); { double acc = 0; for (size_t l = 0; l < c.links.size(); l++) { tstart.push_back(acc); acc += (double)g.len[l] / (double)c.links[l].rate; } }
@@ -198,7 +219,9 @@ struct SeekRun {
     if (mode == 20) {
       for (size_t l = 0; l + 1 < c.links.size(); l++) if (g.len[l] & 1) relaxed = true;
       if (relaxed) r.label("odd-length interior link (relaxed position checks)");
-      for (size_t l = 0; l < c.links.size(); l++) { int64_t hl = g.half[l].empty() ? 0 : (int64_t)g.half[l][0].size(); if (hl != (g.len[l] + 1) / 2) return r.fail("link %zu of length %lld decodes to %lld samples at half rate, expected %lld [%s]", l, (long long)g.len[l], (long long)hl, (long long)((g.len[l] + 1) / 2), desc.c_str()); }
+      for (size_t l = 0; l < c.links.size(); l++) if (c.links[l].bs0 <= 64) refuses = true;
+      if (refuses) r.label("chain with a 64-sample-block link");
+      for (size_t l = 0; l < c.links.size() && !refuses; l++) { int64_t hl = g.half[l].empty() ? 0 : (int64_t)g.half[l][0].size(); if (hl != (g.len[l] + 1) / 2) return r.fail("link %zu of length %lld decodes to %lld samples at half rate, expected %lld [%s]", l, (long long)g.len[l], (long long)hl, (long long)((g.len[l] + 1) / 2), desc.c_str()); }
       if (t.chance(1, 2)) { if (!do_toggle(1)) return false; r.label("halfrate on before first read"); }
     }
     int nops = 1 + t.below(24);
@@ -230,7 +253,8 @@ struct SeekRun {
           int ll = 0; { double acc = 0; for (ll = 0; ll < (int)c.links.size(); ll++) { double add = (double)g.len[ll] / (double)c.links[ll].rate; if (ts < acc + add) break; acc += add; } }
           if (ll >= (int)c.links.size()) { r.label("time target rounds to the end: skipped"); break; }
           long double exact = (long double)g.start[ll] + ((long double)ts - (long double)tstart[ll]) * (long double)c.links[ll].rate;
-          int64_t tlo = (int64_t)ceill(exact - 1), thi = (int64_t)floorl(exact + 1); if (tlo < 0) tlo = 0; if (thi > g.total) thi = g.total;
+          // 'within one sample of t*rate'; t*rate itself is only defined up to the rounding of a double-precision product (1e-6 sample slack)
+          int64_t tlo = (int64_t)ceill(exact - 1 - 1e-6L), thi = (int64_t)floorl(exact + 1 + 1e-6L); if (tlo < 0) tlo = 0; if (thi > g.total) thi = g.total;
           if (op == 4) { hist += sfmt("time_seek(%.9g)", ts); int ret = ov_time_seek(&vf, ts); r.label("op time_seek"); if (!after_seek("ov_time_seek", ret, (int64_t)exact, false, tlo, thi)) return false; }
           else {
             // page granularity: at or before the target (+1 sample of conversion slack), not earlier than the last page boundary strictly before it
